@@ -14,12 +14,17 @@ def run(ctx):
     rec = ctx.path("c10-records.ndjson")
     summ = vlib.agv_ok(ctx, ["drive", "c10", "--vectors", vec, "--corpus", vlib.CORPUS, "--seed", ctx.seed, "--tier", ctx.tier,
                              "--out", rec], timeout=3000)
-    n, fails = vlib.validate_trace(ctx, "trace/Trace_C10.tla", "trace/Trace_C10.cfg", rec, timeout=3000)
+    if th:
+        n, fails = vlib.validate_trace_sharded(ctx, "trace/Trace_C10.tla", "trace/Trace_C10.cfg", rec, shards=12, timeout=3000)
+    else:
+        n, fails = vlib.validate_trace(ctx, "trace/Trace_C10.tla", "trace/Trace_C10.cfg", rec, timeout=3000)
     bad = set()
     for f in fails:
         case = vlib.nth_line(rec, f["index"])
         for reason in f["reasons"]:
             facts = {"reason": reason, "lang": case["lang"]}
+            if isinstance(reason, str) and reason.startswith("known:"):
+                facts["scenario"] = reason[len("known:"):]
             slim = {"id": case["id"], "lang": case["lang"], "text": case["text"], "edit": {"pos": case["edit"]["pos"], "del": case["edit"]["del"],
                     "ins": case.get("ins_text")}, "before": bytes(case["before"]).decode("utf8", "replace")[:1500]}
             if vlib.report_failure(ctx, facts, {"record": slim, "reason": reason, "seed": ctx.seed, "tier": ctx.tier},
